@@ -25,6 +25,9 @@ type c09pCase struct {
 	Workers int `json:"workers"`
 	Drops   int `json:"drops"`   // that many of the M completions are drops
 	Ignores int `json:"ignores"` // and that many are ignored
+	// Early: the window is ready long before the last completion (window size = a third of the successes, period one
+	// hour): many completions find a ready, due window at the same moment, exactly one of them may deliver the update
+	Early bool `json:"early,omitempty"`
 }
 
 func TestC09_parallel(t *testing.T) {
@@ -36,12 +39,17 @@ func TestC09_parallel(t *testing.T) {
 			c := c09pCase{M: rapid.SampledFrom([]int{50, 200, 500, 2000}).Draw(t, "m"), Workers: rapid.IntRange(2, 16).Draw(t, "workers")}
 			c.Drops = rapid.IntRange(0, 5).Draw(t, "drops")
 			c.Ignores = rapid.IntRange(0, 5).Draw(t, "ignores")
+			c.Early = rapid.Bool().Draw(t, "early")
 			return c
 		},
 		Run: func(_ *testing.T, c c09pCase) kit.Outcome {
 			rec := &lockedRecLimit{est: c.M + 10}
 			succ := c.M - c.Drops - c.Ignores
-			lim, err := limiter.NewDefaultLimiter(rec, int64(time.Hour), int64(time.Hour), 1, succ-1, strategy.NewPreciseStrategy(c.M+10), nil, nil)
+			win := succ - 1
+			if c.Early {
+				win = maxInt(10, succ/3)
+			}
+			lim, err := limiter.NewDefaultLimiter(rec, int64(time.Hour), int64(time.Hour), 1, win, strategy.NewPreciseStrategy(c.M+10), nil, nil)
 			if err != nil {
 				return kit.Outcome{Harness: err.Error()}
 			}
@@ -78,6 +86,14 @@ func TestC09_parallel(t *testing.T) {
 			got := rec.snapshot()
 			if len(got) != 1 {
 				return kit.Viol("default:parallel-fold", "%d tokens completed by %d threads at once (%d successes, %d drops, %d ignored; window needs all %d successes): the algorithm received %d updates, expected exactly 1", c.M, c.Workers, succ, c.Drops, c.Ignores, succ, len(got))
+			}
+			if c.Early {
+				// which completions the one update covers depends on the interleaving; that there is exactly one within
+				// the period does not
+				if u := got[0]; u.Inf > c.M || u.Inf <= win-c.Drops-c.Ignores-1 {
+					return kit.Viol("default:parallel-aggregate", "early window (size %d) of %d completions: update %+v carries an impossible in-flight maximum", win, c.M, u)
+				}
+				return kit.Outcome{NonTrivial: c.M >= 200, Labels: []string{fmt.Sprintf("m:%d", c.M), "early-window"}}
 			}
 			u := got[0]
 			// a drop completing after the last success belongs to the next window: the flag may then be false;
